@@ -72,7 +72,7 @@ func runC12(c *Ctx) {
 		ok := fs.Fn == set && fs.Base == ssa.Value(set.Params[0])
 		r.Check("R12.4", FuncName(fs.Fn), "store propertyImpl.properties", fs.St.Pos(), ok, "an owner's chain is written by something other than its own SetProperty")
 	}
-	r.Floor("R12.4", "writers of the chain head", np, 2)
+	r.Floor("R12.4", "writers of the chain head", np, 1)
 
 	// ---- R12.2 SetProperty
 	{
@@ -108,32 +108,49 @@ func runC12(c *Ctx) {
 				if fs.Fn != set {
 					continue
 				}
-				v := fs.St.Val
-				ok, why := false, ""
-				if v == remainder {
-					// only when clearing
-					isClear := false
-					for _, cf := range dominatingConds(fs.St.Block()) {
-						e, nn, isT := nilTest(cf.Cond)
-						if isT && e == ssa.Value(valP) && (nn == 1) == cf.Val {
-							isClear = true
+				// the stored chain, case by case: where several assignments merge (a phi) each incoming value is judged
+				// under the conditions of its own edge
+				type cand struct {
+					v     ssa.Value
+					conds []condFact
+				}
+				var cands []cand
+				var flat func(v ssa.Value, conds []condFact, depth int)
+				flat = func(v ssa.Value, conds []condFact, depth int) {
+					if phi, isPhi := v.(*ssa.Phi); isPhi && depth < 4 {
+						for k, e := range phi.Edges {
+							pred := phi.Block().Preds[k]
+							ec := append(append([]condFact{}, dominatingConds(pred)...), edgeCondOf(pred, phi.Block())...)
+							flat(e, ec, depth+1)
 						}
+						return
 					}
-					ok, why = isClear, "the bare remainder is installed only when the value is nil"
-				} else if call, isCall := v.(*ssa.Call); isCall && call.Call.StaticCallee() == withValue {
-					a := call.Call.Args
-					ok = a[0] == remainder && a[1] == ssa.Value(keyP) && a[2] == ssa.Value(valP)
-					why = "push must be withValue(remainder, key, value)"
-					nonNil := false
-					for _, cf := range dominatingConds(fs.St.Block()) {
-						e, nn, isT := nilTest(cf.Cond)
-						if isT && e == ssa.Value(valP) && (nn == 0) == cf.Val {
-							nonNil = true
+					cands = append(cands, cand{v, conds})
+				}
+				flat(fs.St.Val, dominatingConds(fs.St.Block()), 0)
+				ok, why := true, ""
+				for _, cd := range cands {
+					valNil := func(want int) bool {
+						for _, cf := range cd.conds {
+							e, nn, isT := nilTest(cf.Cond)
+							if isT && e == ssa.Value(valP) && (nn == want) == cf.Val {
+								return true
+							}
 						}
+						return false
 					}
-					ok = ok && nonNil
-				} else {
-					why = "the new chain is neither the stripped remainder nor a push onto it"
+					if cd.v == remainder {
+						if !valNil(1) {
+							ok, why = false, "the bare remainder is installed only when the value is nil"
+						}
+					} else if call, isCall := cd.v.(*ssa.Call); isCall && call.Call.StaticCallee() == withValue {
+						a := call.Call.Args
+						if !(a[0] == remainder && a[1] == ssa.Value(keyP) && a[2] == ssa.Value(valP)) || !valNil(0) {
+							ok, why = false, "push must be withValue(remainder, key, value), and only for a non-nil value"
+						}
+					} else {
+						ok, why = false, "the new chain is neither the stripped remainder nor a push onto it"
+					}
 				}
 				r.Check("R12.2", FuncName(set), "new chain head is built on the stripped remainder", fs.St.Pos(), ok, why)
 			}
